@@ -350,8 +350,54 @@ Proof.
     apply walk_spec. exists e. split; [assumption | split; [assumption | reflexivity]].
 Qed.
 
+(* filepath.Rel on the elements of the paths: whatever the remainder r contains - the
+   elements of wd, or the whole text of wd, any number of times - the result is r *)
+Lemma split_path_nonempty p : split_path p <> [].
+Proof.
+  destruct p as [|x r]; cbn [split_path]; [discriminate|].
+  destruct (N.eqb x slash); [discriminate|]. destruct (split_path r); discriminate.
+Qed.
+
+Lemma split_path_app a : forall b, split_path (a ++ slash :: b) = split_path a ++ split_path b.
+Proof.
+  induction a as [|x a IH]; intros b.
+  - cbn [app split_path]. rewrite N.eqb_refl. reflexivity.
+  - cbn [app split_path]. destruct (N.eqb x slash).
+    + rewrite IH. reflexivity.
+    + rewrite IH. pose proof (split_path_nonempty a) as Hne.
+      destruct (split_path a) as [|c cs]; [contradiction|]. reflexivity.
+Qed.
+
+Lemma join_split_path p : join_comps (split_path p) = p.
+Proof.
+  induction p as [|x r IH]; [reflexivity|].
+  cbn [split_path]. pose proof (split_path_nonempty r) as Hne.
+  destruct (N.eqb x slash) eqn:Ex.
+  - apply N.eqb_eq in Ex. subst x.
+    destruct (split_path r) as [|c cs]; [contradiction|].
+    cbn [join_comps app]. cbn [join_comps] in IH. rewrite IH. reflexivity.
+  - destruct (split_path r) as [|c cs]; [contradiction|].
+    destruct cs as [|c' cs]; cbn [join_comps app] in *; rewrite IH; reflexivity.
+Qed.
+
+Lemma bytes_eqb_refl a : bytes_eqb a a = true.
+Proof. apply bytes_eqb_eq. reflexivity. Qed.
+
+Lemma strip_common_prefix l : forall t, strip_common l (l ++ t) = ([], t).
+Proof.
+  induction l as [|c l IH]; intros t; cbn [app strip_common].
+  - destruct t; reflexivity.
+  - rewrite bytes_eqb_refl. apply IH.
+Qed.
+
 Lemma rel_join wd r : rel wd (join_path wd r) = r.
-Proof. unfold rel, join_path. induction wd as [|x wd IH]; cbn; [reflexivity | exact IH]. Qed.
+Proof.
+  unfold rel, join_path.
+  destruct (bytes_eqb wd (wd ++ slash :: r)) eqn:E.
+  - apply bytes_eqb_eq in E. apply (f_equal (@length N)) in E.
+    rewrite app_length in E. cbn [length] in E. lia.
+  - rewrite split_path_app, strip_common_prefix. cbn [map app]. apply join_split_path.
+Qed.
 
 Lemma sorted_paths_in parent root cs q :
   In q (sorted_paths parent root cs) <-> In q (get_executable_paths parent root cs).
@@ -685,7 +731,8 @@ Proof.
   unfold strip_wd.
   assert (H : is_prefix (wd ++ [47]) (join_path wd r) = true).
   { apply is_prefix_spec. exists r. unfold join_path, slash. rewrite <- app_assoc. reflexivity. }
-  rewrite H. f_equal. apply rel_join.
+  rewrite H. f_equal. unfold join_path. induction wd as [|x wd IH]; cbn; [reflexivity | apply IH].
+  apply is_prefix_spec. exists r. unfold slash. rewrite <- app_assoc. reflexivity.
 Qed.
 
 Lemma strip_all_shape wd l :
@@ -824,11 +871,147 @@ Proof.
         specialize (Hall e He). apply bytes_ltb_asym in Hall. congruence.
 Qed.
 
+(* ------------------------------------------------------------------ *)
+(* K. names and the by-name index                                      *)
+(* ------------------------------------------------------------------ *)
+
+(* the name determines the file: two discovered files with the same name are the same file *)
+Lemma name_determines_file parent root cs p q :
+  In p (get_executable_paths parent root cs) -> In q (get_executable_paths parent root cs) ->
+  rel (working_dir parent root) p = rel (working_dir parent root) q -> p = q.
+Proof.
+  intros Hp Hq E. rewrite (paths_shape parent root cs p Hp), (paths_shape parent root cs q Hq), E. reflexivity.
+Qed.
+
+(* ... and it is the path of the file relative to the hooks directory *)
+Lemma name_is_relative_path parent root cs p :
+  In p (get_executable_paths parent root cs) ->
+  p = working_dir parent root ++ slash :: rel (working_dir parent root) p
+  /\ exists e, In e (all_files cs) /\ entry_is_hook e = true /\ rel (working_dir parent root) p = entry_path e.
+Proof.
+  intros Hp. split; [exact (paths_shape parent root cs p Hp)|].
+  apply root_walk_spec in Hp as [e [He [Hh ->]]]. exists e. rewrite rel_join. auto.
+Qed.
+
+Lemma index_get_in m n p : index_get m n = Some p -> In (n, p) m.
+Proof.
+  unfold index_get. destruct (find (fun kv => bytes_eqb (fst kv) n) m) as [[k v]|] eqn:F; [|discriminate].
+  intros [= <-]. apply find_some in F as [Hin E]. cbn [fst] in E. apply bytes_eqb_eq in E. subst k. exact Hin.
+Qed.
+
+Lemma index_get_some m n p : In (n, p) m -> exists p', index_get m n = Some p'.
+Proof.
+  intros Hin. unfold index_get. destruct (find (fun kv => bytes_eqb (fst kv) n) m) as [kv|] eqn:F.
+  - exists (snd kv). reflexivity.
+  - exfalso. pose proof (find_none _ _ F _ Hin) as Hn. cbn [fst] in Hn. rewrite bytes_eqb_refl in Hn. discriminate.
+Qed.
+
+Definition idx_ok (wd : bytes) (m : by_name) : Prop := forall n p, In (n, p) m -> p = join_path wd n.
+
+Lemma load_index_ok wd beh paths : forall idx,
+  (forall q, In q paths -> q = join_path wd (rel wd q)) -> idx_ok wd idx -> idx_ok wd (load_index wd beh paths idx).
+Proof.
+  induction paths as [|a paths IH]; intros idx Hs Hok; cbn [load_index]; [exact Hok|].
+  destruct (beh (rel wd a)); [|exact Hok|exact Hok].
+  apply IH; [intros q Hq; apply Hs; right; exact Hq|].
+  intros n p [E|H]; [|apply Hok; exact H].
+  injection E as <- <-. apply Hs. left; reflexivity.
+Qed.
+
+Lemma load_index_names wd beh paths : forall aa na idx,
+  (forall n, In n na -> exists p, In (n, p) idx) ->
+  forall n, In n (names (load_all wd beh paths aa na)) -> exists p, In (n, p) (load_index wd beh paths idx).
+Proof.
+  induction paths as [|a paths IH]; intros aa na idx H n Hn; cbn [load_all load_index] in *.
+  - cbn [names] in Hn. apply H; exact Hn.
+  - destruct (beh (rel wd a)); cbn [names] in Hn; [|apply H; exact Hn|apply H; exact Hn].
+    eapply IH; [|exact Hn]. intros n' Hn'. apply in_app_or in Hn' as [Hn'|[<-|[]]].
+    + destruct (H n' Hn') as [p Hp]. exists p. right; exact Hp.
+    + exists a. left; reflexivity.
+Qed.
+
+Lemma hooks_by_name_ok parent root cs beh :
+  idx_ok (working_dir parent root) (hooks_by_name parent root cs beh).
+Proof.
+  unfold hooks_by_name. apply load_index_ok; [apply sorted_paths_shape | intros n p []].
+Qed.
+
+(* a look-up never leads to another file than the one at that relative path *)
+Lemma index_sound parent root cs beh n p :
+  index_get (hooks_by_name parent root cs beh) n = Some p -> p = working_dir parent root ++ slash :: n.
+Proof. intros H. apply index_get_in in H. exact (hooks_by_name_ok parent root cs beh n p H). Qed.
+
+(* every loaded hook is found under its name, bound to its own file *)
+Lemma index_holds_loaded parent root cs beh n :
+  In n (names (init parent root cs beh)) ->
+  index_get (hooks_by_name parent root cs beh) n = Some (working_dir parent root ++ slash :: n).
+Proof.
+  intros Hn. unfold init in Hn.
+  destruct (load_index_names (working_dir parent root) beh (sorted_paths parent root cs) [] [] []
+              (fun n' (H : In n' []) => match H with end) n Hn) as [p Hp].
+  fold (hooks_by_name parent root cs beh) in Hp.
+  destruct (index_get_some _ _ _ Hp) as [p' E]. rewrite E. f_equal. exact (index_sound _ _ _ _ _ _ E).
+Qed.
+
+(* when Init succeeds the index holds every discovered file under its relative path *)
+Lemma index_complete parent root cs beh :
+  result (init parent root cs beh) = InitOk ->
+  forall p, In p (get_executable_paths parent root cs) ->
+  index_get (hooks_by_name parent root cs beh) (rel (working_dir parent root) p) = Some p.
+Proof.
+  intros Hok p Hp. destruct (init_ok_all parent root cs beh Hok) as [_ [Hn _]].
+  rewrite (paths_shape parent root cs p Hp) at 2. apply index_holds_loaded. rewrite Hn.
+  unfold discover. apply in_map. apply sorted_paths_in. exact Hp.
+Qed.
+
+Lemma index_holds_every_hook parent root cs beh :
+  (forall n p, index_get (hooks_by_name parent root cs beh) n = Some p -> p = working_dir parent root ++ slash :: n)
+  /\ (forall n, In n (names (init parent root cs beh)) ->
+        index_get (hooks_by_name parent root cs beh) n = Some (working_dir parent root ++ slash :: n))
+  /\ (result (init parent root cs beh) = InitOk ->
+        forall p, In p (get_executable_paths parent root cs) ->
+        index_get (hooks_by_name parent root cs beh) (rel (working_dir parent root) p) = Some p).
+Proof.
+  exact (conj (index_sound parent root cs beh)
+        (conj (index_holds_loaded parent root cs beh) (index_complete parent root cs beh))).
+Qed.
+
+Lemma io_names_init_obs_of r : io_names (init_obs_of r) = names r.
+Proof. unfold init_obs_of. destruct (result r); reflexivity. Qed.
+
+Lemma io_status_init_obs_of r : N.eqb (io_status (init_obs_of r)) 0 = true -> result r = InitOk.
+Proof. unfold init_obs_of. destruct (result r); cbn [io_status]; intros H; [reflexivity | discriminate | discriminate]. Qed.
+
+Lemma P_index_model i :
+  P_index i (init_obs_of (init (i_parent i) (i_root i) (i_children i) (beh_of i))) (index_obs_of i) = true.
+Proof.
+  set (parent := i_parent i). set (root := i_root i). set (cs := i_children i).
+  unfold P_index, index_obs_of. fold parent root cs. rewrite wd_of_eq. fold parent root.
+  set (wd := working_dir parent root). set (m := hooks_by_name parent root cs (beh_of i)).
+  set (r := init parent root cs (beh_of i)).
+  assert (Hget : forall n, In n (names r) -> get_hook_path m n = wd ++ 47 :: n).
+  { intros n Hn. unfold get_hook_path, m. rewrite (index_holds_loaded parent root cs (beh_of i) n Hn). reflexivity. }
+  rewrite !andb_true_iff. split; [split|].
+  - apply forallb_forall. intros [n p] Hin. apply in_map_iff in Hin as [n' [E _]]. injection E as <- <-.
+    cbn [fst snd]. unfold get_hook_path. destruct (index_get m n') as [p|] eqn:G; [|reflexivity].
+    apply index_sound in G. subst p. apply orb_true_iff. right. apply bytes_eqb_refl.
+  - rewrite io_names_init_obs_of. apply forallb_forall. intros n Hn.
+    unfold found_in. apply existsb_exists. exists (n, get_hook_path m n). split.
+    + apply in_map_iff. exists n. split; [reflexivity | apply in_or_app; left; exact Hn].
+    + cbn [fst snd]. rewrite bytes_eqb_refl, (Hget n Hn). destruct wd; reflexivity.
+  - destruct (N.eqb (io_status (init_obs_of r)) 0) eqn:Est; [|reflexivity].
+    apply io_status_init_obs_of in Est. destruct (init_ok_all parent root cs (beh_of i) Est) as [_ [Hn _]].
+    apply forallb_forall. intros e He. apply spec_hooks_iff in He. apply discover_iff with (parent := parent) (root := root) in He.
+    unfold bound_to. apply existsb_exists. exists (e, get_hook_path m e). split.
+    + apply in_map_iff. exists e. split; [reflexivity | apply in_or_app; right; exact He].
+    + cbn [fst snd]. fold r in Hn. rewrite Hget by (rewrite Hn; exact He). rewrite !bytes_eqb_refl. reflexivity.
+Qed.
+
 Lemma P_model i : wf_children (i_children i) = true -> P i (model_of i) = true.
 Proof.
   intros Hwf. unfold P. rewrite (P_paths_model i Hwf). cbn [andb].
-  unfold model_of. cbn [o_init]. destruct (i_with_init i); [|reflexivity].
-  cbn [andb]. apply P_init_model. exact Hwf.
+  unfold model_of. cbn [o_init o_index]. destruct (i_with_init i); [|reflexivity].
+  cbn [andb]. rewrite (P_init_model i Hwf). cbn [andb]. apply P_index_model.
 Qed.
 
 Lemma NoDup_app_l {A} (a b : list A) : NoDup (a ++ b) -> NoDup a.
